@@ -153,6 +153,27 @@ pub fn format(vm: &RootedThread, src: &str) -> Fmt {
 fn comments_of(src: &str, toks: &[Tok]) -> Vec<String> {
     toks.iter().filter(|t| t.is_comment()).map(|t| t.text(src).to_string()).collect()
 }
+/// The literal lexemes of a text according to the REAL tokenizer (hook
+/// `gluon_parser::verif_tokens(input, false)`): (token kind, exact source spelling), in order.
+/// `None` if the tokenizer reports an error.
+pub fn real_literals(src: &str) -> Option<Vec<(String, String)>> {
+    let (toks, err) = gv::catch(|| gluon_parser::verif_tokens(src, false)).ok()?;
+    if err.is_some() {
+        return None;
+    }
+    let mut out = vec![];
+    for (dbg, start, end, _, _) in toks {
+        let kind: String = dbg.chars().take_while(|c| c.is_alphanumeric()).collect();
+        if kind.ends_with("Literal") {
+            // absolute positions are 1-based byte offsets
+            let (a, b) = ((start as usize).saturating_sub(1), (end as usize).saturating_sub(1));
+            let lex = src.get(a..b)?.to_string();
+            out.push((kind, lex));
+        }
+    }
+    Some(out)
+}
+
 fn literals_of(src: &str, toks: &[Tok]) -> Vec<String> {
     toks.iter().filter(|t| t.k == K::Lit).map(|t| t.text(src).to_string()).collect()
 }
@@ -329,6 +350,21 @@ pub fn check_with(src: &str, format: &dyn Fn(&str) -> Fmt) -> Verdict {
             fail("ast-changed", format!("…{} ≠ …{}", cut(&a0), cut(&a1)), None, Some(&f1)),
             ast_diff_tag(&a0, &a1),
         );
+    }
+    // literals byte-for-byte: by the real tokenizer (kind and spelling) and by the oracle's own
+    match (real_literals(src), real_literals(&f1)) {
+        (Some(r0), Some(r1)) => {
+            if r0 != r1 {
+                let i = r0.iter().zip(r1.iter()).position(|(a, b)| a != b).unwrap_or(r0.len().min(r1.len()));
+                let kind = r0.get(i).map(|x| x.0.clone()).unwrap_or_else(|| "count".into());
+                return with_tag(
+                    fail("literal-changed", format!("{:?} -> {:?}", r0.get(i), r1.get(i)), None, Some(&f1)),
+                    kind,
+                );
+            }
+        }
+        (Some(_), None) => return fail("output-does-not-parse", "tokenizer error in the output".into(), None, Some(&f1)),
+        _ => {}
     }
     let l0 = literals_of(src, &t0);
     let l1 = literals_of(&f1, &t1);
